@@ -293,8 +293,12 @@ def rule_pop(check, cm, rule):
           return 'unexpected argument `%s`' % show(kw)
         if kw[1] == 'reverse' and kw[2] != ('const', False):
           return 'reverse order'
-        if kw[1] == 'key' and not _first_component_key(kw[2], m.module):
-          return 'unknown-key'
+        if kw[1] == 'key':
+          fk = _first_component_key(kw[2], m.module)
+          if fk == 'other':
+            return 'the sort key is not the timestamp itself: datapoints whose keys compare equal stay in arrival order'
+          if not fk:
+            return 'unknown-key'
       return 'ok'
     px = PathExec(cx, m, unroll=1, follow_exceptions=False)
     g = px.g
@@ -339,6 +343,12 @@ def _first_component_key(t, module):
     if len(params) != 1:
       return False
     rets = [se.ev(src.body, {params[0]: ('param', params[0])}, None)]
+  elif t[0] in ('param', 'global') and isinstance(t[1], str) and not module.functions.get(t[1]) and len(module.globals.get(t[1], [])) == 1:
+    # a module-level key object: by_timestamp = itemgetter(0)
+    v = module.globals[t[1]][0]
+    if isinstance(v, ast.Call) and (dotted(v.func) or '').split('.')[-1] == 'itemgetter' and len(v.args) == 1 and isinstance(v.args[0], ast.Constant):
+      return True if v.args[0].value == 0 else 'other'
+    return False
   elif t[0] in ('param', 'global') and isinstance(t[1], str):
     fs = module.functions.get(t[1])
     if not fs or len(fs[0].params) != 1:
@@ -351,7 +361,9 @@ def _first_component_key(t, module):
   else:
     return False
   want = ('field', ('param', params[0]), 0)
-  return bool(rets) and all(canon(r) == want or r == ('sub', ('param', params[0]), ('const', 0)) for r in rets)
+  if bool(rets) and all(canon(r) == want or r == ('sub', ('param', params[0]), ('const', 0)) for r in rets):
+    return True
+  return 'other' if rets else False        # a resolved key function that returns something else than the timestamp itself
 
 
 def _sorted_items(v, aliases, m=None):
@@ -671,3 +683,52 @@ def run(check):
   rule_side_tables(check, cm, r8)
   r9 = check.rule('R-C02-dispatch-total', 1, rule_dispatch_total.__doc__)
   rule_dispatch_total(check, cm.cx, r9)
+  rule_no_reinsertion(check, cx, check.rule('R-C02-no-reinsertion', 1, 'a batch handed out by drain_metric()/pop() never flows back into a method of the cache'))
+
+
+def rule_no_reinsertion(check, cx, rule):
+  """datapoints handed out by drain_metric() / pop() never flow back into the cache: a drained batch that is stored again
+  (a 'requeue' after a failed write) is handed out by a second drain, and it overwrites whatever was received for the same
+  timestamps in the meantime."""
+  seen = 0
+  for fn in check.repo.all_functions():
+    if fn.module.name == 'carbon.cache' or isinstance(fn.node, ast.Lambda):
+      continue
+    takes = [c for c in walk_no_nested(fn.node, include_self=False) if isinstance(c, ast.Call) and isinstance(c.func, ast.Attribute) and
+             c.func.attr in ('drain_metric', 'pop') and cx.calls_method(c, fn, {'_MetricCache'}, c.func.attr, allow_byname=False)]
+    if not takes:
+      continue
+    seen += 1
+    tainted = set()
+    for st in ast.walk(fn.node):
+      if isinstance(st, ast.Assign) and any(t is x for t in takes for x in ast.walk(st.value)):
+        for tg in st.targets:
+          if isinstance(tg, (ast.Tuple, ast.List)) and len(tg.elts) == 2 and any(t.func.attr == 'drain_metric' for t in takes if any(t is x for x in ast.walk(st.value))):
+            tainted |= {x.id for x in ast.walk(tg.elts[1]) if isinstance(x, ast.Name)}
+          else:
+            tainted |= {x.id for x in ast.walk(tg) if isinstance(x, ast.Name)}
+    for _ in range(6):
+      before = len(tainted)
+      for st in ast.walk(fn.node):
+        if isinstance(st, ast.Assign) and any(isinstance(x, ast.Name) and x.id in tainted for x in ast.walk(st.value)):
+          tainted |= {x.id for tg in st.targets for x in ast.walk(tg) if isinstance(x, ast.Name)}
+        elif isinstance(st, (ast.For, ast.comprehension)) and any(isinstance(x, ast.Name) and x.id in tainted for x in ast.walk(st.iter)):
+          tainted |= {x.id for x in ast.walk(st.target) if isinstance(x, ast.Name)}
+      if len(tainted) == before:
+        break
+    bad = []
+    for c in walk_no_nested(fn.node, include_self=False):
+      if not (isinstance(c, ast.Call) and isinstance(c.func, ast.Attribute)) or c in takes:
+        continue
+      if not any(isinstance(x, ast.Name) and x.id in tainted for a in list(c.args) + [k.value for k in c.keywords] for x in ast.walk(a)):
+        continue
+      if cx.resolves_to(c, fn, lambda f: f.cls is not None and f.cls.name == '_MetricCache', allow_byname=False) or \
+         (isinstance(c.func.value, ast.Name) and any(isinstance(t.func.value, ast.Name) and t.func.value.id == c.func.value.id for t in takes)):
+        bad.append(c)
+    for c in bad:
+      rule.violate('drained datapoints are put back into the cache', fn, c, '`%s` hands datapoints that drain_metric()/pop() '
+                   'already handed out back to the cache: they will be handed out again by a later drain, and they overwrite '
+                   'newer values received for the same timestamps' % short(c, 60))
+    if not bad:
+      rule.ok('no flow from a drained batch back into the cache', fn.loc(fn.node), '%s; batch names: %s' % (fn.key, ', '.join(sorted(tainted)) or '-'))
+  rule.require(seen >= 1, 'no consumer of drain_metric()/pop() found outside carbon.cache')
